@@ -118,12 +118,15 @@ def model_value(m, v):
 
 def discharge(ctx, timeout_ms, cvc5_timeout_s):
     results = []
+
+    def extract(m):
+        return {k: _jsonable(model_value(m, x)) for k, x in ctx.inputs.items()}
     for (name, pc, goal, tainted, clause, kind) in ctx.obls:
         t0 = time.time()
         rec = {'name': name, 'unit': ctx.unit, 'clause': clause, 'kind': kind}
         try:
             if kind == 'cover':
-                v, m, backend, dt = solve.check(pc + [goal], timeout_ms, use_cvc5=False)
+                v, m, backend, dt = solve.check(pc + [goal], min(timeout_ms, 10000), use_cvc5=False)
                 rec['status'] = {'sat': 'discharged', 'unsat': 'failed', 'unknown': 'undecided'}[v]
                 if v == 'unsat':
                     rec['reason'] = 'vacuous: precondition/path unreachable'
@@ -133,10 +136,10 @@ def discharge(ctx, timeout_ms, cvc5_timeout_s):
                     v, m, backend, dt = 'unsat', None, 'simplify', 0.0
                 else:
                     v, m, backend, dt = solve.check(pc + [z3.Not(goal)], timeout_ms,
-                                                    cvc5_timeout_s=cvc5_timeout_s)
+                                                    cvc5_timeout_s=cvc5_timeout_s, extract=extract)
                 if v == 'sat' and ctx.lazy:
                     v2, m2, b2, dt2 = solve.check(pc + list(ctx.lazy) + [z3.Not(goal)], timeout_ms,
-                                                  cvc5_timeout_s=cvc5_timeout_s)
+                                                  cvc5_timeout_s=cvc5_timeout_s, extract=extract)
                     if v2 == 'unknown':
                         rec['reason'] = 'counterexample only without input well-formedness; re-check unknown'
                     v, m, backend = v2, m2, b2
@@ -144,15 +147,15 @@ def discharge(ctx, timeout_ms, cvc5_timeout_s):
                 if v == 'sat' and active and not tainted:
                     outside = [z3.Not(r) for _, r in active]
                     v3, m3, b3, dt3 = solve.check(pc + list(ctx.lazy) + outside + [z3.Not(goal)], timeout_ms,
-                                                  cvc5_timeout_s=cvc5_timeout_s)
+                                                  cvc5_timeout_s=cvc5_timeout_s, extract=extract)
                     if v3 == 'unsat':
                         hit = []
                         for fid, r in active:
-                            v4, m4, _, _ = solve.check(pc + list(ctx.lazy) + [r, z3.Not(goal)], timeout_ms, use_cvc5=False)
+                            v4, m4, _, _ = solve.check(pc + list(ctx.lazy) + [r, z3.Not(goal)], timeout_ms, use_cvc5=False, extract=extract)
                             if v4 == 'sat':
                                 hit.append(fid)
-                                if m4 is not None and 'model' not in rec:
-                                    rec['model'] = {k: _jsonable(model_value(m4, x)) for k, x in ctx.inputs.items()}
+                                if isinstance(m4, dict) and 'model' not in rec:
+                                    rec['model'] = m4
                         rec['status'] = 'known'
                         rec['findings'] = hit
                         rec['backend'] = b3
@@ -176,8 +179,8 @@ def discharge(ctx, timeout_ms, cvc5_timeout_s):
                         rec['reason'] = 'counterexample on a path kept after an unknown feasibility check'
                     else:
                         rec['status'] = 'failed'
-                        if m is not None:
-                            rec['model'] = {k: _jsonable(model_value(m, x)) for k, x in ctx.inputs.items()}
+                        if isinstance(m, dict):
+                            rec['model'] = m
                         else:
                             rec['model'] = None
                             rec['reason'] = 'sat by cvc5 (no model extracted)'
